@@ -742,7 +742,13 @@ func (c *CVMContract) execute(st engine.State, params engine.CallParams) ([]byte
 
 			code := errors.GetCode(err)
 			if code == errors.Codes.None || code == errors.Codes.ExecutionReverted {
-				memory.Write(retOffset, RightPadBytes(returnData, int(retSize)))
+				// The output window takes at most retSize bytes of the return data; what the callee
+				// did not return is left as it was (the whole data stays available through RETURNDATACOPY).
+				out := returnData
+				if uint64(len(out)) > retSize {
+					out = out[:retSize]
+				}
+				memory.Write(retOffset, out)
 			} else {
 				maybe.PushError(err)
 			}
